@@ -806,7 +806,10 @@ class Backend(ABC):
             rule.set_conversion_result(finalized_queries)
             rule.set_conversion_states(states)
 
-            return finalized_queries
+            if rule._output:
+                return finalized_queries
+            else:  # only referenced by correlation rules that don't ask for its own output
+                return []
         except SigmaError as e:
             if self.collect_errors:  # same error handling as for Sigma rules
                 self.errors.append((cast(Any, rule), e))
